@@ -320,32 +320,48 @@ Definition lose_product (d : list row) (x : row) : option (list row) :=
               end
   end.
 
-(* Trellis.try_recycle + Step.after_recycle (generated flags say what it overwrites) *)
-Definition recycle_full (d : list row) (i p : nat) (att : bool) (x : row) (cl : claims) (nd : N) : option (list row) :=
+(* A job of the step is in flight: RUNNING (command executing) or CHECKING (hash check under way). *)
+Definition in_flight (x : row) : bool := sstate_eqb (st x) Running || sstate_eqb (st x) Checking.
+
+(* Trellis.try_recycle + Step.after_recycle (generated flags say what it overwrites).
+   keep = the repaired shape (generated recycle_keeps_inflight): a row whose job is in flight keeps its
+   _holding and its step_resource rows. *)
+Definition recycle_full_row (keep : bool) (cl : claims) (nd : N) (y : row) : row :=
+  let k := keep && in_flight y in
+  let y1 := if recycle_zeroes_holding && negb k then set_holding 0 y else y in
+  let y2 := if recycle_failed_to_pending && sstate_eqb (st y1) Failed then set_state_tr Pending y1 else y1 in
+  let y3 := if recycle_replaces_claims && negb k then set_rclaims cl y2 else y2 in
+  set_meta (false, nd, false) y3.
+
+Definition recycle_full (keep : bool) (d : list row) (i p : nat) (att : bool) (x : row) (cl : claims) (nd : N) : option (list row) :=
   match lose_product d x with
   | None => None
   | Some d0 =>
       let d1 := upd d0 i (fun y => set_attached att (set_creator (Some p) y)) in
       let d2 := set_attached_in (descendants (length d1) d1 [i]) att d1 in
-      Some (upd d2 i (fun y =>
-        let y1 := if recycle_zeroes_holding then set_holding 0 y else y in
-        let y2 := if recycle_failed_to_pending && sstate_eqb (st y1) Failed then set_state_tr Pending y1 else y1 in
-        let y3 := if recycle_replaces_claims then set_rclaims cl y2 else y2 in
-        set_meta (false, nd, false) y3))
+      Some (upd d2 i (recycle_full_row keep cl nd))
   end.
 
-(* Trellis.create on a detached node + Step.initialize_row + set_resources *)
-Definition recycle_partial (d : list row) (i p : nat) (att : bool) (x : row) (g : N) (cl : claims) (nd : N) : option (list row) :=
+(* Trellis.create on a detached node + Step.initialize_row + set_resources.
+   keep: the row of a step whose job is in flight carries state and _holding over and define_step
+   does not replace its step_resource rows. *)
+Definition recycle_partial_row (keep : bool) (g : N) (cl : claims) (nd : N) (y : row) : row :=
+  set_meta (false, nd, false)
+    (if keep && in_flight y then set_sig (add_out g (sig y)) y
+     else set_rclaims cl (set_sig (add_out g (sig y)) (set_holding 0 (set_st (of_code partial_recycle_state) y)))).
+
+Definition recycle_partial (keep : bool) (d : list row) (i p : nat) (att : bool) (x : row) (g : N) (cl : claims) (nd : N) : option (list row) :=
   match lose_product d x with
   | None => None
   | Some d0 =>
       let d1 := upd d0 i (fun y => set_attached att (set_creator (Some p) y)) in
       let d2 := detach_created d1 i in
-      Some (upd d2 i (fun y =>
-        set_meta (false, nd, false) (set_rclaims cl (set_sig (add_out g (sig y)) (set_holding 0 (set_st (of_code partial_recycle_state) y))))))
+      Some (upd d2 i (recycle_partial_row keep g cl nd))
   end.
 
-Definition step (s : sys) (e : event) : option sys :=
+(* keep: see recycle_full; rej = the other repaired shape (generated define_rejects_inflight):
+   Workflow.define_step refuses to declare a detached step again while its job is in flight. *)
+Definition step_gen (keep rej : bool) (s : sys) (e : event) : option sys :=
   let d := db s in
   match e with
   | ESetMeta m =>
@@ -403,8 +419,9 @@ Definition step (s : sys) (e : event) : option sys :=
               | Some x =>
                   if attached x then None
                   else if Nat.eqb i p then None
-                  else match (if outs_match (sig x) g then recycle_full d i p (attached px) x cl nd
-                              else recycle_partial d i p (attached px) x g cl nd) with
+                  else if rej && in_flight x then None
+                  else match (if outs_match (sig x) g then recycle_full keep d i p (attached px) x cl nd
+                              else recycle_partial keep d i p (attached px) x g cl nd) with
                        | None => None
                        | Some d' => Some (with_db s d')
                        end
@@ -444,8 +461,15 @@ Definition step (s : sys) (e : event) : option sys :=
   end.
 
 (* a rejected request is rolled back: the state is unchanged *)
-Definition apply (s : sys) (e : event) : sys := match step s e with Some s' => s' | None => s end.
-Definition run (s : sys) (evs : list event) : sys := fold_left apply evs s.
+Definition apply_gen (keep rej : bool) (s : sys) (e : event) : sys :=
+  match step_gen keep rej s e with Some s' => s' | None => s end.
+Definition run_gen (keep rej : bool) (s : sys) (evs : list event) : sys := fold_left (apply_gen keep rej) evs s.
+
+(* the code as it is: the two shape flags are generated from Step.after_recycle / Step.initialize_row /
+   Workflow.define_step *)
+Definition step := step_gen recycle_keeps_inflight define_rejects_inflight.
+Definition apply := apply_gen recycle_keeps_inflight define_rejects_inflight.
+Definition run := run_gen recycle_keeps_inflight define_rejects_inflight.
 
 (* The hypothesis of the partial theorems: a step whose job is in flight (its command is executing,
    or its hash check is under way) is not recycled (Workflow.define_step on a detached label, fully
@@ -462,11 +486,12 @@ Definition quiet_event (s : sys) (e : event) : Prop :=
   | _ => True
   end.
 
-Fixpoint quiet (s : sys) (evs : list event) : Prop :=
+Fixpoint quiet_gen (keep rej : bool) (s : sys) (evs : list event) : Prop :=
   match evs with
   | [] => True
-  | e :: r => quiet_event s e /\ quiet (apply s e) r
+  | e :: r => quiet_event s e /\ quiet_gen keep rej (apply_gen keep rej s e) r
   end.
+Definition quiet := quiet_gen recycle_keeps_inflight define_rejects_inflight.
 
 (* ------------------------------------------------------------------------------------------ *)
 (* Observations used by the correspondence                                                     *)
